@@ -27,7 +27,8 @@ GSpecSim == GInit /\ [][GNextSim]_gvars
 Emit == Len(hist) # E \/ PrintT(<<"BEHAVIOUR", ToJson([cfg |-> cfg, steps |-> hist])>>)
 
 \* The block universe of this run (CID table: which entry every CID addresses; multihash table:
-\* length class, hash function and framing of every entry), printed once (identical lines are
-\* merged by the runner).  The harness builds its blocks and CIDs from THIS table.
-EmitUniverse == Len(hist) # 0 \/ PrintT(<<"BEHAVIOUR", ToJson([univ |-> [cids |-> CidTable, mhs |-> MhTable]])>>)
+\* length class, hash function and framing of every entry; inner-store table: what each kind of
+\* wrapped store is and which optional capabilities it exposes), printed once (identical lines are
+\* merged by the runner).  The harness builds its blocks, CIDs and wrapped stores from THIS table.
+EmitUniverse == Len(hist) # 0 \/ PrintT(<<"BEHAVIOUR", ToJson([univ |-> [cids |-> CidTable, mhs |-> MhTable, inners |-> InnerTable]])>>)
 =============================================================================
